@@ -109,6 +109,12 @@ func (core *JApiCore) compileUserTypeWithAllDependencies(name string) error {
 
 	tt, err := fetchUsedUserTypes(currUT, core.userTypes)
 	if err != nil {
+		// The error (and its position) belongs to the schema of the innermost
+		// user type which could not be processed.
+		var e *usedUserTypeError
+		for errors.As(err, &e) {
+			name, err = e.name, e.err
+		}
 		return jschemaToJAPIError(err, dd.GetValue(name))
 	}
 
@@ -136,6 +142,15 @@ func (core *JApiCore) compileUserTypeWithAllDependencies(name string) error {
 	// Check user type is correct.
 	// We should do it here 'cause it will simplify further processing.
 	if err := currUT.Check(); err != nil {
+		var e kit.Error
+		if errors.As(err, &e) && e.IncorrectUserType() != "" && e.IncorrectUserType() != name {
+			// The error is in the schema of another user type: report it there.
+			if ut := core.userTypes.GetValue(e.IncorrectUserType()); ut != nil {
+				if je := core.checkUserType(e.IncorrectUserType()); je != nil {
+					return je
+				}
+			}
+		}
 		return jschemaToJAPIError(err, dd.GetValue(name))
 	}
 
